@@ -57,6 +57,25 @@ func schemaStr(n parsley.Node) string {
 type plainI struct{ r *tpRec }
 type checkerI struct{ plainI }
 
+// blockNode: a user-defined non-terminal that is also parsley.Walkable: its own Walk visits a header node first, then the
+// children, then itself (a node type of an application, e.g. a block with header nodes that are not among its children)
+type blockNode struct {
+	*ast.NonTerminalNode
+	hdr parsley.Node
+}
+
+func (b *blockNode) Walk(f func(n parsley.Node) bool) bool {
+	if parsley.Walk(b.hdr, f) {
+		return true
+	}
+	for _, c := range b.Children() {
+		if parsley.Walk(c, f) {
+			return true
+		}
+	}
+	return false // (parsley.Walk applies f to the node itself after the node's own Walk)
+}
+
 // keepI: a transformer that returns the very node it was given
 type keepI struct{ plainI }
 
@@ -166,6 +185,9 @@ func tpBuild(tree []tpNode, rec *tpRec) (root parsley.Node, nodes []parsley.Node
 				n = ast.NewNonTerminalNode("n"+strconv.Itoa(i), kids, in)
 			}
 		}
+		if nd.K == "blk" {
+			n = &blockNode{n.(*ast.NonTerminalNode), ast.NewTerminalNode("h", "h"+strconv.Itoa(1000+i), 1000+i, pos, pos)}
+		}
 		nodes[i-1] = n
 		return n
 	}
@@ -213,6 +235,9 @@ func tpBuild2(tree []tpNode, trec, crec *tpRec) (parsley.Node, []parsley.Node) {
 				}
 				n = ast.NewNonTerminalNode("n"+strconv.Itoa(i), kids, in)
 			}
+		}
+		if nd.K == "blk" {
+			n = &blockNode{n.(*ast.NonTerminalNode), ast.NewTerminalNode("h", "h"+strconv.Itoa(1000+i), 1000+i, pos, pos)}
 		}
 		nodes[i-1] = n
 		return n
@@ -336,7 +361,7 @@ func tpObserve(tree []tpNode, list bool, stopK, failAt int) J {
 		obs["api"] = api
 		evaluable := true
 		for _, nd := range tree {
-			if nd.K == "nt" && nd.Cap == "none" {
+			if (nd.K == "nt" || nd.K == "blk") && nd.Cap == "none" {
 				evaluable = false
 			}
 		}
@@ -465,7 +490,10 @@ func treepassMain(mode string, a args) {
 			}
 			for i := range tree {
 				if len(tree[i].Kids) > 0 {
-					tree[i].K, tree[i].Cap = "nt", caps[r.Intn(5)]
+					tree[i].K, tree[i].Cap = "nt", caps[r.Intn(len(caps))]
+					if r.Intn(5) == 0 {
+						tree[i].K = "blk" // a user-defined node type with its own Walk
+					}
 					if r.Intn(3) > 0 && tree[i].Cap == "transformer" {
 						tree[i].Cap = "checker" // transformers cut the recursion: keep most trees deep
 					}
